@@ -16,7 +16,7 @@ from cextract import *
 
 REPO = os.environ.get('VERIF_REPO', '/repo')
 VERIF = os.path.dirname(os.path.dirname(os.path.abspath(__file__)))
-OUT = os.path.join(VERIF, 'lean', 'LibconfigModel', 'Generated')
+OUT = os.path.join(os.environ.get('VERIF_LEAN') or os.path.join(VERIF, 'lean'), 'LibconfigModel', 'Generated')
 
 def tab(vals):
     if vals is None:
